@@ -76,6 +76,14 @@ def cases(rng, tier):
         idx = {"r": rng.choice([{"t": "all"}, {"t": "slice", "a": None, "b": None, "k": -1}, {"t": "int", "i": rng.randrange(len(lens))}]),
                "c": {"t": "slice", "a": v(), "b": v(), "k": k}}
         out.append({"prop": "C02", "case": {"lens": lens, "idx": idx, "dtype": "int64", "vseed": rng.randint(0, 999), "variant": rng.randint(0, 29)}})
+    # SKEWED arrays: many short rows and one long one -- rows x longest row exceeds 2**31 although the array holds about 10**5 cells
+    for _ in range(2 if tier == "quick" else 6):
+        n = rng.randint(60000, 75000)
+        lens = [rng.choice([0, 1, 1, 2]) for _ in range(n)]
+        lens[rng.randrange(n)] = rng.randint(36000, 45000)
+        idx = rng.choice([{"r": {"t": "all"}, "c": {"t": "slice", "a": None, "b": 1, "k": None}}, {"r": {"t": "slice", "a": None, "b": None, "k": -1}, "c": None},
+                          {"r": {"t": "all"}, "c": {"t": "slice", "a": None, "b": None, "k": -1}}])
+        out.append({"prop": "C02", "case": {"lens": lens, "idx": idx, "dtype": "int8", "vseed": rng.randint(0, 999), "variant": 0, "big": True}})
     # integer row / column indices far outside the array that a cast to 32 bits would map onto valid ones (i + 2**32, i - 2**32):
     # refused under both widths
     for _ in range(200 if tier == "quick" else 2000):
